@@ -21,6 +21,30 @@ def boxindex : List String → Option String
     some (if segs.isEmpty then "-" else joinWith ";" (segs.map fun s => s!"{s.pos}:{s.size}"))
   | _ => none
 
-def channels : List (String × (List String → Option String)) := [("boxindex", boxindex)]
+/-- `loadrep <default_sample_duration> <seq:tfdt|-:d,d,…;…>` →
+`<durs> <start_number> <start_time> <media_duration|-> <segment_duration|->` -/
+def parseFrag (s : String) : Option Frag :=
+  match s.splitOn ":" with
+  | [q, t, ds] => do
+    let seq ← parseNat q
+    let tfdt ← if t == "-" then some none else (parseNat t).map some
+    let durs ← parseNatList ds
+    some { seq := seq, tfdt := tfdt, sampleDurs := durs }
+  | _ => none
+
+def showOpt : Option Nat → String
+  | some n => toString n
+  | none => "-"
+
+def loadrep : List String → Option String
+  | [dflt, spec] => do
+    let d ← parseNat dflt
+    let frags ← (spec.splitOn ";").mapM parseFrag
+    let r := loadRep d frags
+    some s!"{joinWith "," (r.durs.map toString)} {r.startNumber} {r.startTime} {showOpt r.mediaDuration} {showOpt r.segmentDuration}"
+  | _ => none
+
+def channels : List (String × (List String → Option String)) :=
+  [("boxindex", boxindex), ("loadrep", loadrep)]
 
 end DashLive.Driver.Indexing
